@@ -7,6 +7,7 @@ From Coq Require Import ZArith List Bool Lia Sorted.
 From GS Require Import Model.Base Gen.Constants Model.Ber Model.Pdu Model.OidText Model.Exc Gen.ErrorMap Model.Ops
   Model.Walk Spec.X690 Spec.Agent.
 From GS Require Import Proofs.OpsLemmas Proofs.OpsProofs Proofs.WalkAnyAgent.
+From GS Require Proofs.OidLemmas.
 Import ListNotations.
 Open Scope Z_scope.
 
@@ -430,12 +431,45 @@ Definition mib_agent_bulk (m : mib) (max_rep cap : nat) (pad : nat -> nat) : age
 Fixpoint tw (base : subs) (l : mib) : mib :=
   match l with [] => [] | e :: r => if subs_prefix base (fst e) then e :: tw base r else [] end.
 
-Lemma convert_vb : forall k v, k <> [] -> (exists x, value_to_py v = Ok x) ->
+(* a MIB name (sub-identifiers within 0..2^32-1) is rendered: the renderer refuses only larger sub-identifiers *)
+Lemma print_rest_mono : forall l b b' t, b <= b' -> print_rest l b' = Ok t -> exists t', print_rest l b = Ok t'.
+Proof.
+  induction l as [|c r IH]; intros b b' t Hb H; cbn [print_rest] in *.
+  - eexists; reflexivity.
+  - destruct (Z.ltb_spec 4294967295 (b' * 128 + Z.land c 127)) as [|Hle]; [discriminate|].
+    destruct (Z.ltb_spec 4294967295 (b * 128 + Z.land c 127)) as [Hgt|_]; [lia|].
+    destruct (Z.land c 128 =? 0).
+    + destruct (print_rest r 0) as [u|e|]; cbn [bind] in *; try discriminate. eexists; reflexivity.
+    + apply (IH _ (b' * 128 + Z.land c 127) t); [lia | exact H].
+Qed.
+
+Lemma print_rest_enc_subs : forall l, subs_ok l -> exists t, print_rest (enc_subs l) 0 = Ok t.
+Proof.
+  induction l as [|x r IH]; intros Hl.
+  - eexists; reflexivity.
+  - inversion Hl as [|? ? Hx Hr]; subst. unfold sub_ok in Hx. rewrite enc_subs_cons.
+    rewrite OidLemmas.print_rest_base128 by lia. destruct (IH Hr) as [u Hu]. rewrite Hu. cbn [bind]. eexists; reflexivity.
+Qed.
+
+Lemma text_of_oid_enc_subs : forall k, subs_ok k -> k <> [] -> exists t, text_of_oid (enc_subs k) = Ok t.
+Proof.
+  intros k Hk Hne. destruct (print_rest_enc_subs k Hk) as [t Ht].
+  destruct (enc_subs k) as [|c X] eqn:E; [exfalso; eapply enc_subs_nonempty; eauto|].
+  cbn [text_of_oid]. cbn [print_rest] in Ht.
+  destruct (4294967295 <? 0 * 128 + Z.land c 127); [discriminate|].
+  assert (exists u, print_rest X 0 = Ok u) as [u Hu].
+  { destruct (Z.land c 128 =? 0).
+    - destruct (print_rest X 0) as [u|e|]; cbn [bind] in Ht; try discriminate. eexists; reflexivity.
+    - apply (print_rest_mono X 0 (0 * 128 + Z.land c 127) t); [|exact Ht].
+      assert (0 <= Z.land c 127) by (apply Z.land_nonneg; right; lia). lia. }
+  rewrite Hu. cbn [bind]. eexists; reflexivity.
+Qed.
+
+Lemma convert_vb : forall k v, subs_ok k -> k <> [] -> (exists x, value_to_py v = Ok x) ->
   convert (vb k v) = Return (to_item (k, v)).
 Proof.
-  intros k v Hk [x Hx]. unfold convert, to_item, mk_item. cbn [vb vb_oid vb_value fst snd].
-  destruct (enc_subs k) as [|b r] eqn:E; [exfalso; eapply enc_subs_nonempty; eauto|].
-  destruct (text_of_oid_cons b r) as [t Ht]. rewrite Ht, Hx. reflexivity.
+  intros k v Hok Hk [x Hx]. unfold convert, to_item, mk_item. cbn [vb vb_oid vb_value fst snd].
+  destruct (text_of_oid_enc_subs k Hok Hk) as [t Ht]. rewrite Ht, Hx. reflexivity.
 Qed.
 
 Lemma accepted_enc : forall base cur k, subs_ok base -> subs_ok cur -> subs_ok k ->
@@ -519,7 +553,7 @@ Proof.
     rewrite accepted_enc by assumption. rewrite Hck, andb_true_r.
     destruct (subs_prefix base k) eqn:Ep; [|reflexivity].
     rewrite Hk3. change {| vb_oid := enc_subs k; vb_value := v |} with (vb k v).
-    rewrite (convert_vb k v Hk2 Hk4).
+    rewrite (convert_vb k v Hk1 Hk2 Hk4).
     destruct (split_advance pre k v post cur Hs Hpre Hck) as [Hpre2 Hpost2].
     replace (pre ++ (k, v) :: post) with ((pre ++ [(k, v)]) ++ post) by (rewrite <- app_assoc; reflexivity).
     unfold last_oid. cbn [map last to_item it_oid fst].
@@ -689,7 +723,7 @@ Proof.
   change (vb_of (k, v)) with (vb k v). change (vb_oid (vb k v)) with (enc_subs k).
   rewrite accepted_enc by assumption. rewrite Hck, andb_true_r.
   destruct (subs_prefix base k) eqn:Ep; [|reflexivity].
-  rewrite (convert_vb k v Hk2 Hk4). rewrite (IH k Hok' Hs' Hk1 Hall). cbn [andb map]. reflexivity.
+  rewrite (convert_vb k v Hk1 Hk2 Hk4). rewrite (IH k Hok' Hs' Hk1 Hall). cbn [andb map]. reflexivity.
 Qed.
 
 Lemma skipn_shorter : forall (A : Type) (l : list A) n, (1 <= n)%nat -> l <> [] ->
